@@ -164,7 +164,83 @@ def run(ctx):
             if line != exp:
                 ctx.disagree("update_to_v23 date", case, model=line, impl=exp)
     check_v1_fields(ctx)
+    check_sources(ctx)
 
+
+
+def check_sources(ctx):
+    """hand-built v2.2 / v2.3 source tags (dates in TYE/TDA/TIM resp. TYER/TDAT/TIME, numeric frames), with and without a
+    trailing ID3v1 block that carries a year: loaded with the defaults (translate to v2.4, ID3v1 merged) the recording
+    date keeps everything the source had; saved as v2.4 the tag is valid and reloads the same.  And numeric text frames
+    with several values saved as v2.3 are joined by the separator like every other text frame."""
+    from mutagen.id3 import ID3, TBPM, TRCK, TPOS, TLEN, TYER, TIT2
+    rng = ctx.rng
+
+    def syncsafe(n):
+        return bytes([(n >> 21) & 0x7F, (n >> 14) & 0x7F, (n >> 7) & 0x7F, n & 0x7F])
+
+    def v1block(year):
+        return b"TAG" + b"t".ljust(30, b"\0") + b"a".ljust(30, b"\0") + b"l".ljust(30, b"\0") + year.encode("ascii").ljust(4, b"\0")[:4] + \
+            b"c".ljust(29, b"\0") + b"\x01\x0c"
+    for ver in (2, 3):
+        for has_v1 in (False, True):
+            for (y, dm, hm) in (("2004", "0312", "1030"), ("1999", "3112", None), ("2010", None, None), ("2004", "0101", "0000")):
+                frames = b""
+                def fr(fid3, fid4, body):
+                    if ver == 2:
+                        return fid3 + len(body).to_bytes(3, "big") + body
+                    return fid4 + len(body).to_bytes(4, "big") + b"\0\0" + body
+                frames += fr(b"TT2", b"TIT2", b"\x00title")
+                frames += fr(b"TYE", b"TYER", b"\x00" + y.encode())
+                if dm:
+                    frames += fr(b"TDA", b"TDAT", b"\x00" + dm.encode())
+                if hm:
+                    frames += fr(b"TIM", b"TIME", b"\x00" + hm.encode())
+                data = b"ID3" + bytes([ver, 0, 0]) + syncsafe(len(frames)) + frames + b"\xff\xfb\x90\x00" + b"\0" * 600 + \
+                    (v1block(rng.choice([y, "1980"])) if has_v1 else b"")
+                exp = y
+                if dm:
+                    exp += "-%s-%s" % (dm[2:], dm[:2])
+                    if hm:
+                        exp += " %s:%s:00" % (hm[:2], hm[2:])
+                case = {"sub": "source", "version": ver, "v1": has_v1, "year": y, "date": dm, "time": hm}
+                k, t = timed(lambda: ID3(io.BytesIO(data)), 10)
+                ctx.case(key=("source", ver, has_v1, y, dm, hm), nontrivial=True, modelled=False, sample=None)
+                ctx.hist["source:v2.%d%s" % (ver, "+v1" if has_v1 else "")] += 1
+                if k != "ok":
+                    ctx.violation("source:load-fails", repr(t)[:100], case); continue
+                have = [str(x) for x in t["TDRC"].text] if "TDRC" in t else None
+                if have != [exp]:
+                    ctx.violation("source:v2.%d:TDRC" % ver, "a v2.%d tag with year %s date %s time %s%s loads as TDRC %r, expected %r"
+                                  % (ver, y, dm, hm, " and an ID3v1 block" if has_v1 else "", have, [exp]), case)
+                g = io.BytesIO(data)
+                k2, r2 = timed(lambda: t.save(g, v2_version=4, v1=1), 10)
+                if k2 != "ok":
+                    ctx.violation("source:save-fails", repr(r2)[:100], case); continue
+                w = id3spec.walk_tag(g.getvalue())
+                if w.errors or w.version[0] != 4:
+                    ctx.violation("v24:invalid", "v2.4 tag invalid: %s version %r" % (w.errors[:2], w.version), case)
+                tdrc = [id3spec.decode_frame(fid, body) for fid, fl, body in w.frames if fid == "TDRC"]
+                if not tdrc or tdrc[0].get("text") != [exp.replace(" ", "T")] and tdrc[0].get("text") != [exp]:
+                    ctx.violation("source:v2.%d:saved-TDRC" % ver, "saved v2.4 TDRC is %r, expected %r" % (tdrc[:1], exp), case)
+    # multi-valued numeric text frames in v2.3
+    for cls, vals in ((TBPM, ["120", "140"]), (TRCK, ["1/9", "2/9"]), (TPOS, ["1", "2"]), (TLEN, ["1000", "2000"]), (TIT2, ["a", "b"])):
+        for sep in ("/", "; ", None):
+            tag = ID3(); tag.add(cls(encoding=3, text=list(vals)))
+            f = io.BytesIO()
+            case = {"sub": "numeric-multi", "frame": cls.__name__, "sep": sep}
+            def save():
+                tag.update_to_v23(); tag.save(f, v2_version=3, v23_sep=sep)
+            k, r = timed(save, 10)
+            ctx.case(key=("numeric-multi", cls.__name__, sep), nontrivial=True, modelled=False, sample=None)
+            if k != "ok":
+                ctx.violation("v23:save-fails:%s" % (type(r).__name__ if k == "exc" else k), repr(r)[:100], case); continue
+            w = id3spec.walk_tag(f.getvalue())
+            got = [id3spec.decode_frame(fid, body) for fid, fl, body in w.frames if fid == cls.__name__]
+            exp = [sep.join(vals)] if sep is not None else list(vals)
+            if not got or got[0].get("text") != exp:
+                ctx.violation("v23:multivalue:%s" % cls.__name__, "multi-valued %s with separator %r written as %r, expected %r"
+                              % (cls.__name__, sep, got[:1], exp), case)
 
 
 def check_v1_fields(ctx):
